@@ -23,7 +23,13 @@ from core import fbits_raw, fkey
 
 MODULE = "DfolsVerif.Properties.C13"
 BUILD_TARGETS = ["DfolsVerif.Driver.TrsDrv"]     # what lean/TrsMain.lean imports
+def pre_build(ctx):
+    import gen_kernels
+    ctx.cov["trproj_placement_functions"] = gen_kernels.regenerate_trproj(ctx)
+
+
 THEOREMS = [
+    "Dfols.C13.gen_trproj_last",
     "Dfols.C13.trsbox_linear_box_ball",
     "Dfols.C13.trsbox_linear_descent",
     "Dfols.C13.trsbox_geometry_box_ball",
@@ -455,10 +461,24 @@ def check_geom(trsbox_geometry, c):
     return None
 
 
-def rand_sets(rng, n, centre):
+def rand_sets(rng, n, centre, delta_hint=1.0):
     """convex sets containing `centre`"""
     from dfols.util import pball, pbox
     P, names = [], []
+    if n >= 2 and rng.random() < 0.3:
+        # a thin wedge: two or three nearly parallel half-space cuts through (or just beyond) the centre — Dykstra converges
+        # slowly on it and may stop at its sweep limit, which is when the ORDER of the sets in a sweep decides the result
+        a0 = rng.normal(size=n)
+        a0 /= np.linalg.norm(a0)
+        same_side = bool(rng.random() < 0.8)
+        for j in range(int(rng.integers(2, 4))):
+            a = a0 + rng.normal(size=n) * 10.0 ** rng.uniform(-1.7, -0.9)
+            sgn = 1.0 if (j % 2 == 0 or same_side) else -1.0     # same side (nested cuts) or alternate sides (thin slab)
+            a = sgn * a
+            bb = float(a @ centre + delta_hint * rng.choice([0.0, 0.0, 0.1, 0.3]))
+            P.append(lambda x, a=a, bb=bb: x - max(0.0, (a @ x - bb)) / (a @ a) * a)
+            names.append("wedge-halfspace")
+        return P, names
     for _ in range(int(rng.integers(0, 4))):
         k = int(rng.integers(3))
         if k == 0:
@@ -492,17 +512,19 @@ def fail_once(ctx, sig, what, replay):
 
 def search_convex(ctx):
     from dfols.trust_region import ctrsbox_pgd, ctrsbox_sfista, ctrsbox_geometry
-    ncase = ctx.scale(300, 1500) * getattr(ctx, "boost", 1)
+    ncase = ctx.scale(600, 4000) * getattr(ctx, "boost", 1)
     st = {"pgd": 0, "sfista": 0, "cgeom": 0, "sets": {}, "max_norm_over_Delta": 0.0, "alarms": 0, "raised": {}}
     for i in range(ncase):
         rng = np.random.default_rng([ctx.seed, 1302, i])
         n = int(rng.integers(1, 4))
         xopt = np.round(rng.normal(size=n), 2) * 10.0 ** rng.integers(-1, 2)
-        P, names = rand_sets(rng, n, xopt)
+        Delta = float(10.0 ** rng.uniform(-3, 2))
+        P, names = rand_sets(rng, n, xopt, delta_hint=Delta)
         for nm in names:
             st["sets"][nm] = st["sets"].get(nm, 0) + 1
-        Delta = float(10.0 ** rng.uniform(-3, 2))
         g = rng.normal(size=n) * 10.0 ** rng.uniform(-3, 3)
+        if "wedge-halfspace" in names:
+            g = g / max(float(np.linalg.norm(g)), 1e-300) * Delta * 10.0 ** rng.uniform(0.8, 2.2)
         A = rng.normal(size=(int(rng.integers(1, n + 2)), n))
         H = (A.T @ A) * 10.0 ** rng.uniform(-3, 2) if rng.random() < 0.8 else np.zeros((n, n))
         which = i % 3
